@@ -23,7 +23,7 @@ from myst_parser.mdit_to_docutils.transforms import (
     UniqueContentsIds,
 )
 from myst_parser.parsers.mdit import create_md_parser
-from myst_parser.warnings_ import create_warning
+from myst_parser.warnings_ import MystWarnings, create_warning
 
 SPHINX_LOGGER = logging.getLogger(__name__)
 
@@ -93,6 +93,19 @@ class MystParser(SphinxParser):
                 config = merge_file_level(config, topmatter, warning)
         if not translated:
             env.temp_data["myst_file_config"] = config
+            # enabled by the front matter only
+            # (the global setting is reported once, when the builder is initialised)
+            if (
+                "attrs_image" in config.enable_extensions
+                and "attrs_image" not in env.myst_config.enable_extensions
+            ):
+                create_warning(
+                    document,
+                    "The `attrs_image` extension is deprecated, "
+                    "please use `attrs_inline` instead.",
+                    MystWarnings.DEPRECATED,
+                    line=1,
+                )
 
         parser = create_md_parser(config, SphinxRenderer)
         parser.options["document"] = document
